@@ -6,6 +6,7 @@ LEVEL_TEXT = ("Differential type monitoring: for generated scalar expressions ov
               "timestamp, interval, null/unknown; table pinned in this module) and compared with the class of DuckDB's typeof() "
               "for the evaluated expression; an inferred integer must never be produced as a float or text; annotation must not "
               "change the SQL the tree generates. UNKNOWN is 'no claim' and is counted, never failed.")
+LEVEL_TEXT += (' The same columns are also reached through derived tables, CTEs and UNION / EXCEPT / INTERSECT sources whose branches have different numeric types (DuckDB DESCRIBE as reference).')
 LEVEL_NOTE = "DuckDB 1.5.5 typeof() over a one-row table is the reference; the class table is pinned here, not read from the library"
 TECHNIQUE = "runtime monitoring: differential comparison of inferred type classes with the engine's typeof()"
 RULE = ("seeded typed expressions (arithmetic incl. division, comparisons, CASE/COALESCE/NULLIF, casts, string functions, date parts, "
